@@ -373,9 +373,12 @@ open TlvSchema
 
 /-- **Derived structures, full statement (proved).**  For every well-formed schema `ty`
 (`Ty.wf`: in every structure at every nesting depth the context tags are pairwise different and
-below 256) — fields of type `u8/u16/u32/u64` (also `NonZero`, unit enums, bit flags), `bool`, octet
+below 256) — fields of type `u8/u16/u32/u64` (also `NonZero`, unit enums, bit flags), **`i8/i16/i32/i64`**
+(also `NonZeroI*`; written in the smallest signed element type, read back by the widening chains),
+**`f32/f64`** (bit patterns: NaN payloads, signed zeros, subnormals), `bool`, octet
 and UTF-8 strings (borrowed or with a capacity), **nested structures / lists**, **arrays of integers
-or of structures** (with or without capacity), each optional and/or nullable — and every value `val`
+or of structures** (with or without capacity), **`[T; N]`** (exactly `N` items), raw elements, enums with payload,
+each optional and/or nullable — and every value `val`
 the derived encoder accepts (`toValue ty val = some v`: the value inhabits the Rust type), the
 derived decoder applied to the encoder's bytes, followed by arbitrary bytes, returns exactly `val`:
 `Option::None` stays absent, `Nullable` null stays null, integers come back whatever width the
@@ -409,13 +412,14 @@ def realNames : List String :=
   ["AttrPath", "CmdPath", "EventPath", "ClusterPath", "EventFilter", "TimedReq", "Target", "DataVersionFilter",
    "Status", "StatusResp", "SessionParameters", "PBKDFParamReq", "PBKDFParamResp", "Pake1", "Pake2", "Pake3",
    "Sigma1Req", "Sigma2Resp", "TBEData2Decrypt", "Sigma3Decrypt", "Sigma2ResumeMsg", "AclEntry", "Fabric",
-   "AttrStatus", "AttrData", "AttrResp", "CmdStatus", "CmdData", "CmdResp"]
+   "AttrStatus", "AttrData", "AttrResp", "CmdStatus", "CmdData", "CmdResp",
+   "DSTOffsetEntry", "TimeZoneOwned", "NeighborTable"]
 
 theorem real_schemas_wf : ∀ name ∈ realNames, ∃ ty, named name = some ty ∧ ty.wf := by
   intro name hn
   simp only [realNames, List.mem_cons, List.mem_nil_iff, or_false] at hn
   rcases hn with rfl | rfl | rfl | rfl | rfl | rfl | rfl | rfl | rfl | rfl | rfl | rfl | rfl | rfl | rfl | rfl |
-    rfl | rfl | rfl | rfl | rfl | rfl | rfl | rfl | rfl | rfl | rfl | rfl | rfl <;>
+    rfl | rfl | rfl | rfl | rfl | rfl | rfl | rfl | rfl | rfl | rfl | rfl | rfl | rfl | rfl | rfl <;>
   exact ⟨_, rfl, Ty.wf_of_wfb _ (by decide)⟩
 
 -- the hypotheses are satisfiable: an `AclEntry` with a nullable array of integers, an array of
@@ -439,6 +443,131 @@ example : (do
         (.cons .absent (.cons .absent .nil))))))))) .nil)))))
     let v ← toValue ty x
     pure (decodeStruct ty (encode v) == .ok x)) = some true := by decide
+
+/-! ### the constructs added in round 4: signed integers, floats, `[T; N]`, bit flags -/
+
+/-- **signed fields**: what `tw.i8` / `tw.i16|i32|i64` (smallest signed element type) writes for a value of
+an `iN` field is read back by `element.iN()` — `i8()` directly, the others through the widening chain — for
+every value of the type, at every width -/
+theorem signed_field_roundtrip (t : Tag) (w : Width) (i : Int) (rest : Bytes) (hlo : smin w ≤ i) (hhi : i ≤ smax w) :
+    readSint w (encode (.leaf t (sintPrim w i)) ++ rest) = .ok i ∧ (sintPrim w i).wf :=
+  ⟨readSint_written t w i rest hlo hhi, sintPrim_wf w i hlo hhi⟩
+
+/-- the width the writer picks: `i8` always one byte; otherwise `S8` on `[-128, 127]`, `S16` on the rest of
+`[-32768, 32767]`, `S32` on the rest of the 32-bit range, `S64` beyond (`Prim.mkSint`) -/
+theorem signed_width_choice (i : Int) :
+    sintPrim .w1 i = .sint .w1 i ∧
+    (∀ w, w ≠ Width.w1 → -128 ≤ i → i ≤ 127 → sintPrim w i = .sint .w1 i) ∧
+    (∀ w, w ≠ Width.w1 → (-32768 ≤ i ∧ i < -128 ∨ 127 < i ∧ i ≤ 32767) → sintPrim w i = .sint .w2 i) ∧
+    (∀ w, w ≠ Width.w1 → (-2147483648 ≤ i ∧ i < -32768 ∨ 32767 < i ∧ i ≤ 2147483647) → sintPrim w i = .sint .w4 i) ∧
+    (∀ w, w ≠ Width.w1 → (i < -2147483648 ∨ 2147483647 < i) → sintPrim w i = .sint .w8 i) := by
+  refine ⟨by simp [sintPrim], fun w hw h1 h2 => ?_, fun w hw h => ?_, fun w hw h => ?_, fun w hw h => ?_⟩ <;>
+    simp only [sintPrim, hw, if_false, Prim.mkSint]
+  · simp [h1, h2]
+  · have a : ¬ (-128 ≤ i ∧ i ≤ 127) := by omega
+    have b : -32768 ≤ i ∧ i ≤ 32767 := by omega
+    simp [a, b]
+  · have a : ¬ (-128 ≤ i ∧ i ≤ 127) := by omega
+    have b : ¬ (-32768 ≤ i ∧ i ≤ 32767) := by omega
+    have c : -2147483648 ≤ i ∧ i ≤ 2147483647 := by omega
+    simp [a, b, c]
+  · have a : ¬ (-128 ≤ i ∧ i ≤ 127) := by omega
+    have b : ¬ (-32768 ≤ i ∧ i ≤ 32767) := by omega
+    have c : ¬ (-2147483648 ≤ i ∧ i ≤ 2147483647) := by omega
+    simp [a, b, c]
+
+/-- what the signed accessors refuse: every unsigned element, and a signed element wider than the field -/
+theorem signed_reader_rejects (t : Tag) (rest : Bytes) :
+    (∀ w w' n, readSint w (encode (.leaf t (.uint w' n)) ++ rest) = .err .mismatch) ∧
+    (∀ w w' i, w.bytes < w'.bytes → readSint w (encode (.leaf t (.sint w' i)) ++ rest) = .err .mismatch) ∧
+    (∀ w w' i, readUint w (encode (.leaf t (.sint w' i)) ++ rest) = .err .mismatch) := by
+  refine ⟨fun w w' n => ?_, fun w w' i h => ?_, fun w w' i => ?_⟩
+  · cases w <;> cases w' <;>
+      simp only [readSint, i64, i32, i16, i8, control_leafE, Res.ok_bind, Prim.vt, reduceCtorEq, if_false]
+  · cases w <;> cases w' <;> simp only [Width.bytes] at h <;> first | omega | skip
+    all_goals
+      simp only [readSint, i64, i32, i16, i8, control_leafE, Res.ok_bind, Prim.vt, reduceCtorEq,
+        ValueType.sint.injEq, if_false]
+  · cases w <;> cases w' <;>
+      simp only [readUint, u64, u32, u16, u8, control_leafE, Res.ok_bind, Prim.vt, reduceCtorEq, if_false]
+
+/-- **float fields** are carried bit for bit: every 32- / 64-bit pattern (NaN payloads, signed zeros, subnormals,
+infinities) written by `tw.f32` / `tw.f64` is read back by `f32()` / `f64()`; each accessor accepts exactly its own
+element type (not the other float type, no integer) -/
+theorem float_field_roundtrip (t : Tag) (rest : Bytes) :
+    (∀ b, b < 2 ^ 32 → Tlv.f32 (encode (.leaf t (.f32 b)) ++ rest) = .ok b) ∧
+    (∀ b, b < 2 ^ 64 → Tlv.f64 (encode (.leaf t (.f64 b)) ++ rest) = .ok b) ∧
+    (∀ b, Tlv.f32 (encode (.leaf t (.f64 b)) ++ rest) = .err .mismatch) ∧
+    (∀ b, Tlv.f64 (encode (.leaf t (.f32 b)) ++ rest) = .err .mismatch) ∧
+    (∀ w n, Tlv.f32 (encode (.leaf t (.uint w n)) ++ rest) = .err .mismatch) ∧
+    (∀ w i, Tlv.f64 (encode (.leaf t (.sint w i)) ++ rest) = .err .mismatch) := by
+  refine ⟨fun b h => f32_written t b rest h, fun b h => f64_written t b rest h, fun b => ?_, fun b => ?_,
+    fun w n => ?_, fun w i => ?_⟩ <;>
+  simp only [Tlv.f32, Tlv.f64, control_leafE, Res.ok_bind, Prim.vt, reduceCtorEq, if_false]
+
+/-- **`[T; N]`, any number of items on the wire.**  A TLV array of `k` items — as the slice / `Vec` / `[T; k]`
+encoder writes it — decodes as a `[T; N]` to those `k` items followed by `N - k` copies of `T::default()` when
+`k ≤ N` ("the same value" for a shorter array means: the value padded with defaults, always exactly `N` items),
+and is refused (`ConstraintError`) when `k > N`.  `k = N` is the round trip of `struct_roundtrip_full`. -/
+theorem fixarr_padding (n : Nat) (el : Ty) (d : Val) (t : Tag) (vs : Vals) (v : Value) (rest : Bytes)
+    (hty : el.wf) (hv : encodeVal false (.array none el) t (.arr vs) = some v)
+    (hl : (encode v).length + 1 < USIZE) :
+    decodeVal false (.fixarr n el d) (encode v ++ rest) =
+      (if vs.length ≤ n then .ok (.arr (padTo n d vs)) else .err .invalid) ∧
+    (vs.length ≤ n → (padTo n d vs).length = n) ∧ (vs.length = n → padTo n d vs = vs) :=
+  ⟨fixarr_decodes_array n el d t vs v rest hty hv hl, padTo_length n d vs, padTo_full n d vs⟩
+
+/-- **bit flags.**  The real `to_tlv` of a `bitflags_tlv!` type writes `self.bits()` whatever the bits are:
+(1) on every value the restricted encoder of the theorem accepts, the real encoder (`encodeReal` = the schema with
+the masks erased) writes the same bytes — so `struct_roundtrip_full` speaks about the real encoder's output;
+(2) a value holding a bit outside the declared flags (`from_bits_retain`) is written like any integer and the
+decoder (`from_bits`) refuses those bytes: for such values there is **no** round trip, in the code as in the model. -/
+theorem bitflags_real_encoder (ty : Ty) (val : Val) (v : Value) (hv : toValue ty val = some v) :
+    encodeReal ty val = some (encode v) := by
+  unfold encodeReal
+  rw [encodeVal_eraseMask ty false .anon val v hv]; rfl
+
+theorem bitflags_undefined_bits (w : Width) (m n : Nat) (nl : Bool) (t : Tag) (rest : Bytes)
+    (h1 : n ≤ wmax w) (h2 : (n &&& m) ≠ n) (h3 : nl = true → n ≠ wmax w) :
+    encodeVal nl (Ty.uint w (.mask m)).eraseMask t (.num n) = some (.leaf t (uintPrim w n)) ∧
+    encodeVal nl (Ty.uint w (.mask m)) t (.num n) = none ∧
+    decodeVal nl (.uint w (.mask m)) (encode (.leaf t (uintPrim w n)) ++ rest) = .err .invalid :=
+  bitflags_undefined_rejected w m n nl t rest h1 h2 h3
+
+-- hypotheses satisfiable: the bounds of every width, both sides of every switch of the element type
+example : smin .w2 ≤ (-129 : Int) ∧ (-129 : Int) ≤ smax .w2 ∧ sintPrim .w2 (-129) = .sint .w2 (-129) ∧
+    sintPrim .w8 (-128) = .sint .w1 (-128) ∧ sintPrim .w8 (-9223372036854775808) = .sint .w8 (-9223372036854775808) ∧
+    smin .w8 ≤ (-9223372036854775808 : Int) ∧ sintPrim .w4 32768 = .sint .w4 32768 := by decide +kernel
+example : Width.w1.bytes < Width.w2.bytes := by decide
+-- a TLV array of 2 items read as `[u8; 4]` (padded with 0) and as `[u8; 1]` (refused); hypotheses of `fixarr_padding`
+example : (do
+    let v ← encodeVal false (.array none tU8) .anon (.arr (.cons (.num 7) (.cons (.num 9) .nil)))
+    pure (decide ((encode v).length + 1 < USIZE) &&
+      decodeVal false (.fixarr 4 tU8 (.num 0)) (encode v) == .ok (.arr (.cons (.num 7) (.cons (.num 9) (.cons (.num 0) (.cons (.num 0) .nil))))) &&
+      decodeVal false (.fixarr 1 tU8 (.num 0)) (encode v) == .err .invalid)) = some true := by decide +kernel
+-- flags `{0x01, 0x04, 0x80}` in a `u8`: 0x85 round-trips, 0x02 is written and then refused, `Nullable` reserves 0xff
+example : (5 : Nat) ≤ wmax .w1 ∧ ((2 : Nat) &&& 0x85) ≠ 2 ∧ ((0x85 : Nat) &&& 0x85) = 0x85 := by decide
+example : decodeVal false (.uint .w1 (.mask 0x85)) (encode (.leaf .anon (uintPrim .w1 0x85))) = .ok (.num 0x85) ∧
+    decodeVal false (.uint .w1 (.mask 0x85)) (encode (.leaf .anon (uintPrim .w1 2))) = .err .invalid ∧
+    encodeVal true (.uint .w1 (.mask 0xff)) .anon (.num 0xff) = none := by decide +kernel
+-- `struct_roundtrip_full` on a structure using all the new constructs: `i16` = −129, `Nullable<i64>` = `i64::MIN + 1`,
+-- an `f32` signalling NaN with payload, `[i8; 2]`, `Option<[u16; 2]>` absent, flags
+example : (do
+    let ty ← structOfDecl .struct 0 [(none, .req, tI16), (none, .nul, tI64), (some 7, .req, .f32),
+      (none, .req, .fixarr 2 tI8 (.int 0)), (none, .opt, .fixarr 2 tU16 (.num 0)), (none, .req, .uint .w1 (.mask 133))]
+    let x := Val.obj (.cons (.val (.int (-129))) (.cons (.val (.int (-9223372036854775807))) (.cons (.val (.num 0x7fa00001))
+      (.cons (.val (.arr (.cons (.int (-128)) (.cons (.int 127) .nil)))) (.cons .absent (.cons (.val (.num 0x84)) .nil))))))
+    let v ← toValue ty x
+    pure (ty.wfb && decide ((encode v).length + 1 < USIZE) && decodeStruct ty (encode v ++ [0xaa]) == .ok x)) = some true := by
+  decide +kernel
+-- the real structures with signed fields
+example : (do
+    let ty ← named "NeighborTable"
+    let x := Val.obj (.cons (.val (.num 1)) (.cons (.val (.num 2)) (.cons (.val (.num 3)) (.cons (.val (.num 4)) (.cons (.val (.num 5))
+      (.cons (.val (.num 6)) (.cons (.val (.int (-128))) (.cons .absent (.cons (.val (.num 7)) (.cons (.val (.num 8))
+      (.cons (.val (.bool true)) (.cons (.val (.bool false)) (.cons (.val (.bool true)) (.cons (.val (.bool false)) .nil))))))))))))))
+    let v ← toValue ty x
+    pure (decodeStruct ty (encode v) == .ok x)) = some true := by decide +kernel
 
 /-! ### the tag numbering rule (`#[tlvargs(start)]`, `#[tagval]`, `#[enumval]`)
 
